@@ -261,7 +261,7 @@ func C01(tier string) int {
 		"traces_validated_against_impl": r1.Transitions + r2.Transitions,
 		"evaluations":                   r1.Transitions + r2.Transitions,
 		"distinct_nontrivial":           r1.States + r2.States,
-		"rule":                          "BFS over the real signer stack (signer.Service -> ruler -> locker -> rules -> badger); a state is (raw records of the keys, set of released attestations); every distinct state is non-trivial; the invariant (no double vote, no surround, unsigned comparison) is evaluated over the released set of every state and every released signature of every new transition is BLS-verified against an independent SSZ signing root",
+		"rule":                          "BFS over the real signer stack (signer.Service -> ruler -> locker -> rules -> badger); the alphabet contains, besides single and batch requests in every addressing mode, every batch (and, on two keys, low-epoch singles) served while the store refuses writes, and a history may begin with a record in the old (gob) format standing for a signature released by an older release; a state is (raw records of the keys, set of released attestations); every distinct state is non-trivial; the invariant (no double vote, no surround, unsigned comparison) is evaluated over the released set of every state and every released signature of every new transition is BLS-verified against an independent SSZ signing root",
 		"samples":                       append(st1.samples.List(), st2.samples.List()...),
 		"exhaustive":                    !r1.BudgetHit && !r2.BudgetHit,
 		"single_key_closure": map[string]any{"ops_per_state": len(ops1) + 1, "epochs": fmtU(E), "states": r1.States, "transitions": r1.Transitions,
